@@ -9,9 +9,9 @@ import (
 // C15 — altering a table keeps the stored values of every field it retains.
 
 // identityClass classifies how a function decides that two fields are "the same".
-func identityClass(fn *ssa.Function) string {
+func identityClass(P *Prog, fn *ssa.Function) string {
 	cls := ""
-	for _, in := range instrs(fn) {
+	for _, in := range instrsH(P, fn) {
 		switch x := in.(type) {
 		case *ssa.Call:
 			if isCall(x, "(z/core.Field).Equals") {
@@ -78,7 +78,7 @@ func ruleC15a(c *Ctx, rule string) {
 		if fn == nil {
 			continue
 		}
-		cls := identityClass(fn)
+		cls := identityClass(c.P, fn)
 		c.check(rule, name+" matches fields by name and expression", fn.Pos(), cls == "name+expression" || cls == "name+expression (rendered)", "identity: "+cls, "identity used to map columns is '"+cls+"': a field that keeps its name but changes its expression inherits the old column's data (or retained fields are not recognised)")
 	}
 	// writer/reader agreement of the header
